@@ -196,6 +196,37 @@ def run(ctx):
                 ctx.violation({"recipe": "WebsocketDenialResponse(%s) without the extension" % name}, "exactly one websocket.close",
                               {"closes": closes, "other": [m.get("type") for m in r.events], "exc": repr(r.exc)},
                               "denial without the extension must answer with exactly one websocket.close")
+        # ---- the static-file applications with a not-found handler; fault: the file is removed at the moment the response starts
+        #      (between the application's stat() and the response's open()): whatever happens then, one response at most
+        import os
+        import baize.wsgi as W
+        import baize.asgi as A
+        sdir = os.path.join(env.dir, "static5")
+        os.makedirs(os.path.join(sdir, "d"), exist_ok=True)
+        for iface, pkg in (("wsgi", W), ("asgi", A)):
+            for appname in ("Files", "Pages"):
+                for path, vanish in (("/f.txt", False), ("/f.txt", True), ("/missing", False), ("/d", False), ("/d/", False), ("/p", True)):
+                    for method in ("GET", "HEAD"):
+                        for fn in ("f.txt", "p.html", "d/index.html"):
+                            with open(os.path.join(sdir, fn), "wb") as f:
+                                f.write(b"static content " * 300)
+                        app = getattr(pkg, appname)(sdir, handle_404=pkg.PlainTextResponse("nothing here", 404))
+                        target = os.path.join(sdir, "f.txt" if path == "/f.txt" else "p.html")
+                        hook = (lambda t=target: os.path.exists(t) and os.unlink(t)) if vanish else None
+                        req = servers.Req(method=method, path=path, headers=[("Host", "testserver")])
+                        if iface == "wsgi":
+                            r = servers.wsgi_call(app, req, on_start=hook)
+                            ended = "raised" if r.exc is not None else "returned"
+                        else:
+                            r = servers.asgi_call(app, req, on_start=hook)
+                            ended = "raised" if r.exc is not None else "returned"
+                        case = {"recipe": "%s(dir, handle_404=...) %s %s%s" % (appname, method, path, ", file removed when the response starts" if vanish else ""),
+                                "iface": iface, "fault": ["vanish", 1] if vanish else None}
+                        if not vanish:
+                            unexpected_exception(ctx, r, case)
+                        traces.append(make_trace(iface, r, ended, case))
+                        ctx.count()
+                        ctx.nontriv(("static", iface, appname, path, vanish, method))
     finally:
         shutil.rmtree(env.dir, True)
 
